@@ -95,6 +95,8 @@ def record(run: Run, n_trees: int, flips: int) -> list[dict[str, Any]]:
             else:
                 key = P
             nl = r.choice([0, 1, 2, 3, 4, 5, 8]) if t % 7 else r.choice([16, 40])
+            if t in (3, 5):
+                nl = 129                     # a comb whose deepest leaf sits at depth 128, the most a control block can prove
             shape = shapes[t % 4] if nl < 16 else r.choice(["left", "right"])
             tree = rand_tree(r, nl, scripts, shape) if nl else None
             tj = tree_json(tree) if tree else {"none": 1}
@@ -246,6 +248,11 @@ def check(run: Run) -> None:
         prog = r8.choice([b"\x51", b"\x51", b"\x52\x75\x51", b"\x00"])
         spends.append(c08.tapscript_spend(r8, prog, [], ["P2SH", "TAPROOT", "WITNESS"] + (["DISCOURAGE_UPGRADABLE_TAPROOT_VERSION"] if r8.random() < 0.2 else []),
                                           (2, 0, 0xFFFFFFFF)))
+    # the limits of the commitment as the engine applies them: a leaf at the deepest level (128) and one past it, leaf scripts on either side of the
+    # 520 bytes that bound a stack element and do not bound a leaf script
+    for depth in (0, 1, 127, 128, 129):
+        for prog in (b"\x51", b"\x61" * 519 + b"\x51", b"\x61" * 520 + b"\x51", b"\x61" * 2000 + b"\x51", b"\x4d\x08\x02" + bytes(520) + b"\x75\x51"):
+            spends.append(c08.tapscript_spend(r8, prog, [], ["P2SH", "TAPROOT", "WITNESS"], (2, 0, 0xFFFFFFFF), path_len=depth))
     spends = [e for e in spends if not isinstance(e["ok"], str)]
     res8, bad8, diag8 = events.validate("C08Trace", spends, batch=600)
     for r in res8:
